@@ -216,8 +216,12 @@ func (e *env) consume(c *ibb.Conn) {
 	e.nconn++
 	e.mu.Unlock()
 	e.guardGo("ibb consumer ("+mode+")", func() {
-		// Close and Write wait for the peer's acknowledgement: bound them.
-		_ = c.SetDeadline(time.Now().Add(ibbWait))
+		// Close and Write wait for the peer's acknowledgement: bound them
+		// (except for the consumer that writes without any deadline: its write
+		// ends when the peer acknowledges, refuses or closes the stream).
+		if mode != "writeblock" {
+			_ = c.SetDeadline(time.Now().Add(ibbWait))
+		}
 		_ = c.SID()
 		_ = c.Stanza()
 		_ = c.RemoteAddr()
@@ -234,6 +238,14 @@ func (e *env) consume(c *ibb.Conn) {
 			e.parked.Add(-1)
 			_ = c.Close()
 		case "closenow":
+			_ = c.Close()
+		case "writeblock":
+			e.parked.Add(1)
+			_, _ = c.Write([]byte("hello from the application, which waits for the acknowledgement as long as it takes"))
+			_ = c.Flush()
+			_ = c.SetDeadline(time.Now().Add(ibbWait))
+			_, _ = io.Copy(io.Discard, c)
+			e.parked.Add(-1)
 			_ = c.Close()
 		case "write":
 			_, _ = c.Write([]byte("hello from the application"))
